@@ -8,7 +8,8 @@ Model: `Varpulis.Filter` (Model/Filter.lean). `whereAccepts e ev` mirrors `Runti
 
     ∀ e ev, whereAccepts e ev = stepAccepts e ev
 
-is **false** of the code (`where_step_agree_counterexample`, four minimal witnesses). What holds is
+is **false** of the code (`where_step_agree_counterexample`, four minimal witnesses, plus
+`witness_fold_identity` through the front end). What holds is
 `where_step_agree_partial`: agreement on every event for every expression outside two explicit,
 decidable situations (`Finding`):
 
@@ -58,6 +59,25 @@ theorem eq_guard_exact (f : String) (l : Lit) (v x : Value) (ev : Event)
   rw [eqSafe_exact x v hk]
   cases eqSafe x v <;> simp
 
+/-- the same exactness for `!=` -/
+theorem ne_guard_exact (f : String) (l : Lit) (v x : Value) (ev : Event)
+    (hl : l.compareValue = some v) (hx : lookupV f ev = some x) :
+    whereAccepts (.cmp .ne (.field f) (.lit l)) ev = stepAccepts (.cmp .ne (.field f) (.lit l)) ev
+      ↔ agreeGuard (.cmp .ne (.field f) (.lit l)) ev = true := by
+  have htv : l.toValue = v := by cases l <;> simp_all [Lit.compareValue]
+  have hk := compareValue_kind hl
+  simp only [whereAccepts, stepAccepts, agreeGuard, evalE, evalOperand, toPred, comparePath, hl, hx, htv,
+    Option.map_some, evalP, evalCmp, compareValues, whyWeak, whyCmpWeak, isTrue_bool]
+  have hex := eqSafe_exact x v hk
+  cases hs : eqSafe x v <;> cases hv : veq x v <;> cases hw : valuesEqual x v <;> simp_all
+
+/-- … and for `in` / `not in` / `is`, bare operands and every comparison that is not
+`field op literal`: the guard always holds and the contexts always agree, so "guard ⇔ agreement" is
+exact for every atom shape (ordering atoms: `order_case_table`) -/
+theorem other_guard_exact (k : OtherOp) (op : CmpOp) (l r o : Operand) (ev : Event) (h : comparePath l r = none) :
+    agreeGuard (.other k l r) ev = true ∧ agreeGuard (.atom o) ev = true ∧ agreeGuard (.cmp op l r) ev = true := by
+  simp [agreeGuard, whyWeak, h]
+
 /-- ordering comparisons of a field with a literal need no guard at all: numeric pairs (mixed
 included) and string pairs compute the same order in both contexts, every other pair is rejected
 by both -/
@@ -87,6 +107,38 @@ theorem null_literal_agrees (op : CmpOp) (o : Operand) (ev : Event) :
   constructor
   · apply expr_path_agrees; cases o <;> simp [comparePath, Lit.compareValue]
   · apply expr_path_agrees; simp [comparePath]
+
+/-- arithmetic over the current event's fields (`x + 1 > y`, `x * 2 == y`, on either side, nested to
+any depth) needs no guard: such a comparison is never a `Predicate::Compare`, so the step evaluates
+it with the VPL evaluator (`Predicate::Expr`) exactly as `.where` does — whatever the arithmetic
+yields (wrap-around, IEEE rounding, NaN, no value) -/
+theorem arith_operand_agrees (op : CmpOp) (aop : ArithOp) (a b o : Operand) (ev : Event) :
+    whereAccepts (.cmp op (.arith aop a b) o) ev = stepAccepts (.cmp op (.arith aop a b) o) ev
+    ∧ whereAccepts (.cmp op o (.arith aop a b)) ev = stepAccepts (.cmp op o (.arith aop a b)) ev := by
+  constructor
+  · apply expr_path_agrees; simp [comparePath]
+  · apply expr_path_agrees; cases o <;> simp [comparePath]
+
+/-- the same for `in` / `not in` / `is` and for bare operands: every atom other than
+`field op literal` agrees on every event -/
+theorem other_atoms_agree (k : OtherOp) (l r o : Operand) (ev : Event) :
+    whereAccepts (.other k l r) ev = stepAccepts (.other k l r) ev
+    ∧ whereAccepts (.atom o) ev = stepAccepts (.atom o) ev := by
+  simp [whereAccepts, stepAccepts, toPred, evalP]
+
+/-- **through the front end**: `parse` constant-folds the `.where` expression but not the step filter.
+If no identity rewrite (`x*1 → x`, `x+0 → x`, …) fires, folding does not change what the evaluator
+computes, so the engine's `.where` (on the folded expression) and the step (on the expression as
+written) agree under the same guard -/
+theorem where_step_agree_frontend (e : FExpr) (ev : Event) (hf : identFree e = true)
+    (h : agreeGuard e ev = true) : whereAcceptsFE e ev = stepAccepts e ev := by
+  unfold whereAcceptsFE whereAccepts
+  rw [foldE_eval e ev hf]
+  exact where_step_agree_partial e ev h
+
+/-- folding without identity rewrites never changes the value of a filter -/
+theorem fold_preserves_value (e : FExpr) (ev : Event) (hf : identFree e = true) :
+    evalE (foldE e) ev = evalE e ev := foldE_eval e ev hf
 
 section witnesses
 set_option exponentiation.threshold 3000
@@ -129,6 +181,27 @@ theorem null_field_cases :
     ∧ stepAccepts (.cmp .eq (.field "x") (.lit .null)) [] = false
     ∧ whereAccepts (.cmp .ne (.field "x") (.lit .null)) [("x", .null)] = false
     ∧ stepAccepts (.cmp .ne (.field "x") (.lit .null)) [("x", .null)] = false := by
+  decide +kernel
+
+/-- non-vacuity of `arith_operand_agrees`: `x + 1 > y` and `x * 2 == y` on `x = 1, y = 2` evaluate
+(accepted resp. accepted by both), and `i64::MAX + 1` wraps -/
+theorem arith_cases :
+    let ev : Event := [("x", .int 1), ("y", .int 2)]
+    whereAccepts (.cmp .ge (.arith .add (.field "x") (.lit (.int 1))) (.field "y")) ev = true
+    ∧ stepAccepts (.cmp .ge (.arith .add (.field "x") (.lit (.int 1))) (.field "y")) ev = true
+    ∧ whereAccepts (.cmp .eq (.arith .mul (.field "x") (.lit (.int 2))) (.field "y")) ev = true
+    ∧ stepAccepts (.cmp .eq (.arith .mul (.field "x") (.lit (.int 2))) (.field "y")) ev = true
+    ∧ intArith .add 9223372036854775807 1 = -9223372036854775808
+    ∧ (evalArith .div (.int 1) (.int 0)).isNone = true := by
+  decide +kernel
+
+/-- third known finding: `x * 1 == y` on `x = y = "a"`. `.where` sees the folded `x == y` (true); the
+step evaluates `"a" * 1` (no value) and rejects. Root cause: the type-blind identity rewrite of the
+parser (C10 finding `C10-identity-rewrite`) is applied to `.where` but not to step filters. -/
+theorem witness_fold_identity :
+    let e : FExpr := .cmp .eq (.arith .mul (.field "x") (.lit (.int 1))) (.field "y")
+    let ev : Event := [("x", .str "a"), ("y", .str "a")]
+    identFree e = false ∧ whereAcceptsFE e ev = true ∧ whereAccepts e ev = false ∧ stepAccepts e ev = false := by
   decide +kernel
 
 /-- `not (x > 1)` on an event without `x`: dropped by `.where`, accepted by the step -/
